@@ -30,7 +30,8 @@
 (***************************************************************************)
 EXTENDS Integers, Sequences, TLC
 
-CONSTANT G        \* [rules |-> <<[name, expr]>>]
+CONSTANTS G,       \* [rules |-> <<[name, expr]>>]
+          Checked  \* assert the engine invariants (Contract) on every step
 
 Nil == [k |-> "nil"]
 Str(s) == [k |-> "str", s |-> s]
@@ -205,7 +206,7 @@ Contract(e, st0, r) ==
 \* fr = the labels already set in the current frame; the unused last argument keeps the arities distinct
 PE(e, inp, st0, fr, z) ==
   LET r == PEraw(e, inp, st0, fr, z) IN
-  IF Contract(e, st0, r) THEN r ELSE Assert(FALSE, <<"engine invariant broken at", e.t, st0, r.st>>)
+  IF ~Checked \/ Contract(e, st0, r) THEN r ELSE Assert(FALSE, <<"engine invariant broken at", e.t, st0, r.st>>)
 
 PEraw(e, inp, st0, fr, z) ==
   LET st == Bump(st0) IN
